@@ -187,7 +187,7 @@ theorem build_valid (L : Layout) (cached : Bool) (pages : List (PageSpec A R C))
 /-! ## Non-vacuity: a two-page document with an info dictionary -/
 
 def samplePages : List (PageSpec Nat Nat Nat) := [⟨10, 20, 30⟩, ⟨11, 21, 31⟩]
-def L9 : Layout := ⟨fun id => 40 + id, 90, 25⟩
+def L9 : Layout := ⟨fun id => 40 + id, fun _ => 90, fun _ => 25⟩
 
 example : (match build L9 false samplePages (some 5) with
     | .ok (d, i) =>
